@@ -162,7 +162,7 @@ func cmdCheck(args []string) int {
 	if s := os.Getenv("VERIF_SEED"); s != "" {
 		seed, _ = strconv.Atoi(s)
 	}
-	timeoutS := 20
+	timeoutS := 30
 	if tier == "thorough" {
 		timeoutS = 120
 	}
